@@ -26,7 +26,7 @@ ASSUMPTIONS = ['contexts use the CamelCaseConvention; functions are looked up by
 BOUNDS = {
     'quick': 'profile S (structure): <=5 contexts, <=1 data/function operation, depth 6; profile O (operations): <=3 contexts, <=5 operations, depth 5; '
              'profile M: <=4 contexts, <=2 operations, depth 6; values {1, 2, null}',
-    'thorough': 'profile S: <=5 contexts, <=3 operations, depth 7; profile O: <=3 contexts, depth 7; profile M: <=4 contexts, <=4 operations, depth 7',
+    'thorough': 'profile S: <=5 contexts, <=2 operations, depth 6; profile O: <=3 contexts, <=6 operations, depth 6; profile M: <=4 contexts, <=3 operations, depth 7',
 }
 
 SET_EVENTS = (('a', 1), ('a', 2), ('a', None), ('a', 0), ('$', 1), ('1', 2), ('', None))
@@ -337,7 +337,7 @@ def job_conventions():
 
 PROFILES = {
     'quick': (('S', 5, 1, 6), ('O', 3, 5, 5), ('M', 4, 2, 6)),
-    'thorough': (('S', 5, 3, 7), ('O', 3, 7, 7), ('M', 4, 4, 7)),
+    'thorough': (('S', 5, 2, 6), ('O', 3, 6, 6), ('M', 4, 3, 7)),     # ~15 000 CPU-s (measured by sampling shards)
 }
 
 
